@@ -171,6 +171,11 @@ func genC06(seed uint64, part string) *Scenario {
 	if n > 30 {
 		sc.Width = 200
 	}
+	if common.NewRng(seed^0x0613).Chance(1, 4) {
+		// more bars than the heap manager's queue holds: the bars that stay are handed
+		// back on the path for a full queue (C06-m13)
+		sc.Q = common.NewRng(seed^0x0613).Pick(0, 1, 2, 1)
+	}
 	switch part {
 	case "manual":
 		sc.Mode = "manual"
